@@ -77,12 +77,17 @@ def instances(tier, seed):
     for method in ('MS', 'DC'):
         add(kind='signal', order=2, method=method, N=3, grid=fam.G_FREE, T=('num', Fr(2)), refine=None, reject_ok=True)
         add(kind='signal', order=1, method=method, N=2, grid=fam.G_FREE, T=('free', Fr(3, 2)), refine=2, der=True, reject_ok=True)
+        add(kind='signal', order=2, method=method, N=3, grid=fam.G_FREE, T=('num', Fr(2)), refine=None, der=True, reject_ok=True, param=True)
     # bspline signals INSIDE the dynamics next to other parameters / variables of the stage (layout of the integrator's parameter vector)
     for what in ('parameter', 'variable'):
         for N, grid, T in ((3, fam.G_UNI, ('num', Fr(2))), (2, fam.G_GEO_LOC, ('free', Fr(3, 2)))):
             add(kind='signal-dynamics', what=what, order=[1, 2][N % 2], N=N, grid=grid, T=T)
     add(kind='signal-dynamics', what='both', order=2, N=3, grid=fam.G_UNI, T=('num', Fr(2)))
     add(kind='signal-dynamics', what='both', order=1, N=2, grid=fam.G_GEO_LOC, T=('free', Fr(3, 2)))
+    # DirectCollocation: the signal inside the dynamics is taken at the collocation time (a bspline parameter alone, and next to a bspline variable)
+    add(kind='signal-dynamics', what='parameter', order=2, N=3, grid=fam.G_UNI, T=('num', Fr(2)), method='DC')
+    add(kind='signal-dynamics', what='parameter', order=1, N=2, grid=fam.G_GEO_LOC, T=('num', Fr(2)), method='DC')
+    add(kind='signal-dynamics', what='both', order=2, N=2, grid=fam.G_UNI, T=('num', Fr(2)), method='DC')
     for rep in range(2 if tier == 'quick' else 6):
         add(kind='chain', N=[2, 3, 4][rep % 3], grid=[fam.G_UNI, fam.G_GEO_LOC][rep % 2], T=[('num', Fr(2)), ('free', Fr(3, 2))][rep % 2], refine=[2, 3][rep % 2])
     return items
@@ -243,7 +248,12 @@ def run_signal(item):
                 ocp = Stage(t0=float(t0v), T=FreeTime(float(Tk[1])) if Tk[0] == 'free' else float(Tk[1]))
             else:
                 ocp = Ocp(t0=float(t0v), T=FreeTime(float(Tk[1])) if Tk[0] == 'free' else float(Tk[1]))
-            sig = ocp.variable(grid='bspline', order=order)
+            if item.get('param'):
+                # the signal is a PARAMETER with given coefficients
+                sig = ocp.parameter(grid='bspline', order=order)
+                ocp.set_value(sig, ca.DM([[0.3 + 0.7 * ((3 * j_) % 5) for j_ in range(N + order)]]))
+            else:
+                sig = ocp.variable(grid='bspline', order=order)
             want_der = order >= 1 and (method == 'SM' or item.get('der'))
             dsig = ocp.der(sig) if want_der else None
             d2sig = ocp.der(dsig) if (dsig is not None and order >= 2 and method == 'SM') else None      # declared before the first transcription
@@ -260,8 +270,8 @@ def run_signal(item):
                 ocp.set_der(x, u + sig)
                 ocp.add_objective(ocp.integral(sig * sig + u * u) + ocp.T)
                 ocp.subject_to(ocp.at_t0(x) == 0)
-                if dsig is not None:
-                    ocp.subject_to(dsig <= 2)
+                if dsig is not None and not item.get('param'):
+                    ocp.subject_to(dsig <= 2)       # (for a parameter signal this would be a constraint without decision variables)
                 if item.get('intg_con'):
                     # path constraints on the signal (and its derivative) imposed at every integrator point
                     ocp.subject_to(sig <= 0.8125, grid='integrator')
@@ -553,10 +563,11 @@ def run_signal_dynamics(item):
     """MultipleShooting gap rows with a bspline signal inside the right-hand side, next to a global parameter, a per-interval
     parameter and a global variable: X[k+1] - X[k] - h_k (a*pc_k*U[k] + w + sig(t_k)) with sig(t_k) the sampled signal at the interval start"""
     import z3
-    from ..extract import Ocp, MultipleShooting, FreeTime, make_grid
+    from ..extract import Ocp, MultipleShooting, DirectCollocation, FreeTime, make_grid
     order, N, what, Tk = item['order'], item['N'], item['what'], item['T']
+    dc = item.get('method') == 'DC'       # DirectCollocation, one Radau point per interval: the signal is taken at the COLLOCATION time
     ctx = Ctx()
-    key = 'signal-dynamics|%s|order=%d' % (what, order)
+    key = 'signal-dynamics|%s|order=%d%s' % (what, order, '|DC' if dc else '')
     try:
       with quiet():
           ocp = Ocp(t0=0.5, T=FreeTime(float(Tk[1])) if Tk[0] == 'free' else float(Tk[1]))
@@ -588,14 +599,20 @@ def run_signal_dynamics(item):
               ocp.subject_to(ocp.next(sig) - sig <= 7)       # the signal inside a shifted operand
           ocp.subject_to(ocp.at_t0(x) == 0)
           ocp.add_objective(ocp.integral(u * u) + w * w + ocp.at_tf(x) + ocp.T)
-          ocp.method(MultipleShooting(N=N, M=1, intg='expl_euler', grid=make_grid(item['grid'])))
+          if dc:
+              ocp.method(DirectCollocation(N=N, M=1, degree=1, scheme='radau', grid=make_grid(item['grid'])))
+          else:
+              ocp.method(MultipleShooting(N=N, M=1, intg='expl_euler', grid=make_grid(item['grid'])))
           ocp.solver('ipopt')
           ts, xs = ocp.sample(x, grid='control')
           us = ocp.sample(u, grid='control-')[1]
+          # (collocation: the single Radau point of interval k is its end, t_{k+1}; the sampled spline there is entry k+1 of the control-grid sample)
           ss = ocp.sample(sig + (3 * sig2 if sig2 is not None else 0), grid='control')[1]
           pcs = ocp.sample(pc, grid='control-')[1]
           opti_ = ocp._method.opti
           outs = [ts, xs, us, ss, pcs, ocp.value(a), ocp.value(w), opti_.g]
+          if dc:
+              outs.append(ocp.sample(x, grid='integrator_roots')[1])      # the helper state at the collocation point of every interval
           prog, zin, out = _trace(ocp, outs, ctx)
           # which rows are equalities with zero bounds (bounds may be infinite: evaluated numerically, not translated)
           lbv = np.array(opti_.debug.value(opti_.lbg, opti_.initial())).flatten()
@@ -610,14 +627,23 @@ def run_signal_dynamics(item):
     fin = [[0.37 + 0.013 * (j + 7 * gi) for j in range(len(grp))] for gi, grp in enumerate(zin)]
     fo = prog.run(ctx.fdom, fin)
     for k in range(N):
-        want = xz[k + 1] - xz[k] - (tz[k + 1] - tz[k]) * (az * pz[k] * uz[k] + wz + sz[k])
-        wantf = fo[1][k + 1] - fo[1][k] - (fo[0][k + 1] - fo[0][k]) * (fo[5][0] * fo[4][k] * fo[2][k] + fo[6][0] + fo[3][k])
-        cands = [i for i in range(len(gz)) if abs(abs(fo[7][i]) - abs(wantf)) <= 1e-9 * max(1.0, abs(wantf)) and eqrow[i]]
+        ks_ = k + 1 if dc else k          # where the signal is evaluated: collocation time (= end of the interval) / start of the interval
+        xe_, xef_ = (out[8][k], fo[8][k]) if dc else (xz[k + 1], fo[1][k + 1])       # end of the step: helper state (collocation) / next node (shooting)
+        want = xe_ - xz[k] - (tz[k + 1] - tz[k]) * (az * pz[k] * uz[k] + wz + sz[ks_])
+        wantf = xef_ - fo[1][k] - (fo[0][k + 1] - fo[0][k]) * (fo[5][0] * fo[4][k] * fo[2][k] + fo[6][0] + fo[3][ks_])
+        hf_ = fo[0][k + 1] - fo[0][k]
+        cands = [i for i in range(len(gz)) if eqrow[i] and (abs(abs(fo[7][i]) - abs(wantf)) <= 1e-9 * max(1.0, abs(wantf)) or (dc and abs(abs(fo[7][i] * hf_) - abs(wantf)) <= 1e-9 * max(1.0, abs(wantf))))]
         ok = False
         for i in cands:
             for sgn in (1, -1):
                 ctx.s.push()
-                ctx.s.add(z3.simplify(gz[i] - sgn * want) != 0)
+                if dc:
+                    # the collocation defect is written per unit time ((x_r - x_k)/h - f); with the helper state eliminated through the continuity row
+                    # x_{k+1} == x_r it equals the residual above divided by h > 0: compare h * row (helper state substituted) with the residual
+                    ctx.s.add((tz[k + 1] - tz[k]) > 0)
+                    ctx.s.add(z3.simplify(gz[i] * (tz[k + 1] - tz[k]) - sgn * want) != 0)
+                else:
+                    ctx.s.add(z3.simplify(gz[i] - sgn * want) != 0)
                 r = str(ctx.s.check())
                 ctx.s.pop()
                 ctx.stats[r] += 1
